@@ -2685,6 +2685,8 @@ def fixup_dilation_gt2(op: Operation, arch, nng) -> Operation:
             # update the weight tensor with the new dilated kernel
             op.weights.shape = new_kernel_shape
             op.weights.values = new_kernel_values
+            # The values differ from those of other ops that share the original weights
+            op.weights.value_id = uuid.uuid4()
 
             # enable(=2) / disable(=1) hardware dilation
             op.attrs["dilation"] = (1, hw_dilation_h, hw_dilation_w, 1)  # nhwc format
